@@ -146,4 +146,77 @@ example : computeMinPowerInTopN [40, 30, 20] 75 = some 30 := by decide
 example : computeMinPowerInTopN [5, 5, 5, 5] 50 = some 5 := by decide
 example : computeMinPowerInTopN [1, 1, 1] 100 = some 1 := by decide
 
+/-! ### bridge: the LegacyDec comparison IS the exact rational comparison (total < 2·10^16) -/
+
+/-- banker's rounding of `x / 10^18` reaches an EVEN integer `t` exactly when `x` reaches `t - 1/2` -/
+theorem chopRound_ge_even (x t' : Nat) :
+    chopRound x ≥ 2 * t' ↔ x + 500000000000000000 ≥ 2 * t' * 1000000000000000000 := by
+  unfold chopRound prec
+  have e : (10 : Nat) ^ 18 = 1000000000000000000 := by decide
+  simp only [e]
+  split
+  · omega
+  · split
+    · omega
+    · split
+      · rename_i h; have := Nat.mod_two_eq_zero_or_one (x / 1000000000000000000); simp at h; omega
+      · rename_i h; simp at h; omega
+
+/-- `LegacyNewDec(a).Quo(LegacyNewDec(b)) ≥ LegacyNewDec(N).QuoInt64(100)` holds exactly when
+    `100·a ≥ N·b`, for every total below 2·10^16 (the rounding of the quotient can change the
+    comparison only for larger totals; the property's "at least N %" is the exact comparison) -/
+theorem decQuo_ge_threshold_iff (a b n : Nat) (hb : 0 < b) (hlt : b < 20000000000000000) (hn : 1 ≤ n) :
+    decQuo a b ≥ threshold n ↔ 100 * a ≥ n * b := by
+  have e : (10 : Nat) ^ 18 = 1000000000000000000 := by decide
+  have hthr : threshold n = 2 * (n * 5000000000000000) := by
+    unfold threshold prec; rw [e]; omega
+  have hX : a * prec * (prec * prec) / (b * prec) = a * 1000000000000000000000000000000000000 / b := by
+    unfold prec; rw [e]
+    have : a * 1000000000000000000 * (1000000000000000000 * 1000000000000000000)
+        = a * 1000000000000000000000000000000000000 * 1000000000000000000 := by
+      rw [Nat.mul_assoc, Nat.mul_assoc]
+    rw [this, Nat.mul_div_mul_right _ _ (by decide : 0 < 1000000000000000000)]
+  unfold decQuo
+  rw [hX, hthr, chopRound_ge_even]
+  -- X + 5·10^17 ≥ n·10^34  ⇔  X ≥ n·10^34 - 5·10^17  ⇔  (n·10^34 - 5·10^17)·b ≤ a·10^36
+  generalize hm : n * b = m
+  have hdiv : ∀ K, K ≤ a * 1000000000000000000000000000000000000 / b ↔ K * b ≤ a * 1000000000000000000000000000000000000 :=
+    fun K => Nat.le_div_iff_mul_le hb
+  constructor
+  · intro h
+    have hK : n * 10000000000000000000000000000000000 - 500000000000000000
+        ≤ a * 1000000000000000000000000000000000000 / b := by omega
+    have := (hdiv _).mp hK
+    rw [Nat.sub_mul] at this
+    have hnb : n * 10000000000000000000000000000000000 * b = 10000000000000000000000000000000000 * m := by
+      rw [← hm, Nat.mul_right_comm, Nat.mul_comm]
+    rw [hnb] at this
+    omega
+  · intro h
+    have hK : (n * 10000000000000000000000000000000000 - 500000000000000000) * b
+        ≤ a * 1000000000000000000000000000000000000 := by
+      rw [Nat.sub_mul]
+      have hnb : n * 10000000000000000000000000000000000 * b = 10000000000000000000000000000000000 * m := by
+        rw [← hm, Nat.mul_right_comm, Nat.mul_comm]
+      rw [hnb]; omega
+    have := (hdiv _).mpr hK
+    omega
+
+/-- the scan with the exact comparison -/
+def scanExact (total n : Nat) : List Nat → Nat → Option Nat
+  | [], _ => none
+  | p :: ps, acc => if 100 * (acc + p) ≥ n * total then some p else scanExact total n ps (acc + p)
+
+/-- for totals below 2·10^16 the implementation's scan is the exact scan -/
+theorem scan_eq_exact (total n : Nat) (ht : 0 < total) (hlt : total < 20000000000000000) (hn : 1 ≤ n)
+    (l : List Nat) (acc : Nat) : scan total (threshold n) l acc = scanExact total n l acc := by
+  induction l generalizing acc with
+  | nil => rfl
+  | cons p ps ih =>
+    simp only [scan, scanExact]
+    by_cases h : 100 * (acc + p) ≥ n * total
+    · rw [if_pos ((decQuo_ge_threshold_iff _ _ _ ht hlt hn).mpr h), if_pos h]
+    · rw [if_neg (fun hh => h ((decQuo_ge_threshold_iff _ _ _ ht hlt hn).mp hh)), if_neg h]
+      exact ih _
+
 end ICS.Props.C03
